@@ -45,11 +45,18 @@ pub broadcast axiom fn into_u64_u8(v: u8) ensures #[trigger] into_u64::<u8>(v) =
 pub broadcast axiom fn into_u64_u32(v: u32) ensures #[trigger] into_u64::<u32>(v) == v as u64;
 pub broadcast axiom fn into_u64_u64(v: u64) ensures #[trigger] into_u64::<u64>(v) == v;
 
+/// at least two different byte values occur
+pub open spec fn two_distinct(s: Seq<u8>) -> bool { exists|i: int, j: int| 0 <= i < s.len() && 0 <= j < s.len() && s[i] != s[j] }
+
 #[verifier::external_body]
 pub struct HuffmanTable { _o: u8 }
 impl HuffmanTable {
+    /// precondition from the callee chain build_from_data -> build_from_counts -> distribute_weights(number of distinct bytes), which
+    /// asserts `amount >= 2` (unit HU4D proves distribute_weights under exactly that precondition): a Huffman code needs two symbols (defect F8)
     #[verifier::external_body]
-    pub fn build_from_data(data: &[u8]) -> (r: HuffmanTable) { unimplemented!() }
+    pub fn build_from_data(data: &[u8]) -> (r: HuffmanTable)
+        requires two_distinct(data@),
+    { unimplemented!() }
     #[verifier::external_body]
     pub fn can_encode(&self, other: &HuffmanTable) -> (r: Option<usize>) { unimplemented!() }
 }
@@ -89,6 +96,7 @@ pub fn compress_literals(
 ) -> (r: Option<HuffmanTable>)
     requires
         literals@.len() < 0x4_0000,             // compress_block passes at most one block (128 KiB) of literals
+        two_distinct(literals@),                // compress_block's `!single_symbol` guard (repair of defect F8); the call site itself is not under contract
         old(writer).idx() % 8 == 0,
     ensures
         final(writer).idx() % 8 == 0,
